@@ -1,6 +1,6 @@
 """C20 — the io_uring backend is observably equivalent to the Tokio backend."""
 from . import flow
-from . import C01, C02, C14
+from . import C01, C02, C07, C14
 
 URING_ENVS = [("default-pools", {"VERIF_URING": "64x16384x32x65536", "VERIF_E2E_PAR": "4"}),
               ("small-pools-zc", {"VERIF_URING": "4x4096x4x8192,zc", "VERIF_E2E_PAR": "4"}),
@@ -37,6 +37,12 @@ def workloads(rng, tier):
         out.append(["!fanin rcvhwm=5000/uring=1,sndhwm=2000,linger=60000%s 32 1000 8192 closeint" % zc])
     for a, b in (("uring=1", "-"), ("-", "uring=1"), ("uring=1", "uring=1"), ("uring=1,ms=0", "uring=1,ms=0")):
         out.append(["peerclose %s %s" % (a, b)])
+    # hostile and malformed streams (C07's generator) against a listener served by the io_uring worker: one bad peer must not
+    # take the worker - and with it every other connection of the process - down
+    hostile = [c[0].split(" ") for c in C07.gen_stack_cases(rng, "thorough") if c[0].startswith("hostile")]
+    for p in rng.sample(hostile, 10 if tier == "quick" else 80):
+        p[1] += ",uring=1"
+        out.append([" ".join(p)])
     # the io_uring side closes while its peer is still sending: the receive buffers the kernel held come back (more rounds than buffers)
     out.append(["!rchurn uring=1,ms=0 %d" % (40 if tier == "quick" else 300)])
     out.append(["!rchurn uring=1 %d" % (24 if tier == "quick" else 300)])
@@ -171,7 +177,7 @@ def mk_components():
               "nontrivial": lambda c, i: any(l.isdigit() for l in i), "dist": lambda cs: {"cases": len(cs), "ops": sum(len(c) for c in cs)}}]
     for name, env in URING_ENVS:
         comps.append({"comp": "stack", "gen": workloads, "label": "uring-" + name, "shrink": False, "env": env,
-                      "nontrivial": lambda c, i: any(l.startswith(("delivered=", "hwm=ok", "churn=ok", "fanin=ok", "fanin=intact", "peerclose=seen", "rchurn=ok")) for l in i),
+                      "nontrivial": lambda c, i: any(l.startswith(("delivered=", "hwm=ok", "churn=ok", "fanin=ok", "fanin=intact", "peerclose=seen", "rchurn=ok", "survived=ok")) for l in i),
                       "dist": lambda cs: {"cases": len(cs), "streams": sum(1 for c in cs if c[0].startswith("stream")),
                                           "hwm": sum(1 for c in cs if c[0].startswith("hwm")),
                                           "churn/fanin": sum(1 for c in cs if c[0].lstrip("!").startswith(("churn", "fanin")))}})
